@@ -6,7 +6,7 @@ patch="$1"; shift
 cd /verif
 export VERIF_EVIDENCE_DIR=/verif/build/evidence-mutant   # never overwrite the committed evidence with a mutant run
 if ! git -C /repo diff --quiet; then echo "/repo is dirty, refusing"; exit 2; fi
-trap 'git -C /repo checkout -- . ; git -C /repo clean -fdq -- mutdemo 2>/dev/null' EXIT
+trap 'git -C /repo checkout -- . ; git -C /verif checkout -- lean/PqlModel/Generated/Facts.lean ; git -C /repo clean -fdq -- mutdemo 2>/dev/null' EXIT
 git -C /repo apply "$(realpath "$patch")" || { echo "patch does not apply"; exit 2; }
 for p in "$@"; do
   out=$(./check "$p" 2>&1)
